@@ -249,3 +249,38 @@ Proof.
   intros H. unfold text, norm. rewrite utf8_dec_ascii by (apply onlcr_ascii; exact H). rewrite crlf_onlcr by exact H.
   apply replace2_absent. eapply Forall_impl; [|exact H]. cbn. intros a [_ Ha]. exact Ha.
 Qed.
+
+(* the channels of the correspondence suites `exec` and `exec_slow` meet the hypotheses of lx_exec_exact: whatever the
+   transport's accept pattern, and for every slow-send configuration with a positive chunk size *)
+Lemma lx_chan_insync ash acc : insync (lx_chan ash acc) /\ prompt (lx_chan ash acc) = Some (SLit TBOT_PROMPT).
+Proof. unfold insync, quiet, wfc, wf_pend, slow_ok, lx_chan. cbn. repeat split; constructor. Qed.
+
+Lemma lx_chan_slow_insync ash acc delay csz : 0 < csz ->
+  insync (lx_chan_slow ash acc (delay, csz)) /\ prompt (lx_chan_slow ash acc (delay, csz)) = Some (SLit TBOT_PROMPT).
+Proof. intros H. unfold insync, quiet, wfc, wf_pend, slow_ok, lx_chan_slow, lx_chan. cbn. repeat split; try constructor; exact H. Qed.
+
+(* ... so exec is exact on them: in particular slow sending (chunks of at most csz bytes, a pause after each) over a
+   transport that accepts fewer bytes than offered sends exactly the same two lines *)
+Theorem lx_exec_exact_slow ash acc delay csz args st1 st2 sts out ds :
+  0 < csz ->
+  let c := lx_chan_slow ash acc (delay, csz) in
+  Forall nonul args ->
+  any_in (blacklist c) (utf8_enc (sh_escape args) ++ [CR]) = false ->
+  any_in (blacklist c) (ECHO_Q ++ [CR]) = false ->
+  wf_pend st1 -> cat st1 = tty_echo false (utf8_enc (sh_escape args) ++ [CR]) ++ onlcr out ++ TBOT_PROMPT ->
+  prompt_only_at_end TBOT_PROMPT (onlcr out) ->
+  wf_pend st2 -> cat st2 = tty_echo false (ECHO_Q ++ [CR]) ++ (ds ++ [CR; LF]) ++ TBOT_PROMPT ->
+  all_digits ds -> ds <> [] -> prompt_only_at_end TBOT_PROMPT (ds ++ [CR; LF]) ->
+  exists c',
+    lx_exec args (st1 :: st2 :: sts) c = (XOk (dec_val ds) (text (onlcr out)), c', sts) /\
+    insync c' /\
+    wr (io c') = (utf8_enc (sh_escape args) ++ [CR]) ++ (ECHO_Q ++ [CR]) /\
+    sh_words (utf8_enc (sh_escape args)) = Some (map utf8_enc args).
+Proof.
+  intros Hc c Hargs Hb1 Hb2 Hw1 Hc1 Ho1 Hw2 Hc2 Hds Hne Ho2.
+  destruct (lx_chan_slow_insync ash acc delay csz Hc) as [Hin Hpr].
+  destruct (lx_exec_exact args TBOT_PROMPT c st1 st2 sts out ds Hin Hpr ltac:(discriminate) Hargs Hb1 Hb2 Hw1 Hc1 Ho1 Hw2 Hc2 Hds Hne Ho2)
+    as (c' & E & Hin' & Hwr & Hsw & Hp' & Hbl').
+  exists c'. split; [exact E|]. split; [exact Hin'|]. split; [|exact Hsw].
+  rewrite Hwr. reflexivity.
+Qed.
